@@ -23,7 +23,7 @@ TRUSTED = [
     "Coq 8.16.1 kernel + vm_compute (no native_compute); Print Assumptions of every theorem in Props/C14.v: closed under the global context",
     "alias-table extractor harness/translate/c14.py (how from_pipeline, build_config/build, Pipeline.__init__, clone/from_config, connect, clear_inputs, "
     "DatasetBuilder.__init__ and build_container obtain the mutable dictionaries of their source: Share / Shallow / Copy; how connect / clear_inputs / node resolve "
-    "the name, node object or alias they are handed; the set of statements that bind a wiring dictionary) and the three syntactic scans (ItemList parameters of "
+    "the name, node object or alias they are handed; the set of statements that bind a wiring dictionary) and the four syntactic scans (node objects reached from a PipelineBuilder's node table; ItemList parameters of "
     "component calls; parameters holding a built Dataset / DataContainer / Pipeline or the document describing one -- PipelineConfig, DataSchema, the argument of "
     "from_config, also after model_validate / cast -- anywhere in lenskit; methods of a built Dataset / DataContainer / Pipeline writing through the parts that "
     "describe it) -- regenerated and re-proved on every run",
